@@ -17,38 +17,47 @@ Definition num_rank (v : value) : Z :=
   | _ => -1
   end.
 
-Lemma dec_to_d128_decimal d r : dec_to_d128 d = Ok r -> num_rank r = 3.
+Lemma dec_result_decimal d r : dec_result d = Ok r -> r = VMissing \/ num_rank r = 3.
 Proof.
-  unfold dec_to_d128. destruct (d128_of_bigint (fst d) (snd d)) as [[h l]| | | |]; intro H; try discriminate;
-    injection H as <-; reflexivity.
+  unfold dec_result. destruct (d128_of_bigint (fst d) (snd d)) as [[h l]| | | |]; intro H; try discriminate;
+    injection H as <-; auto.
 Qed.
 
 Lemma dec_binop_decimal op a b r :
-  is_num a = true -> is_num b = true -> dec_binop op a b = Ok r -> num_rank r = 3.
+  is_num a = true -> is_num b = true -> dec_binop dec_result op a b = Ok r -> r = VMissing \/ num_rank r = 3.
 Proof.
   unfold dec_binop. intros Ha Hb.
   destruct (dec_operand a) as [[x|]|] eqn:Ea; destruct (dec_operand b) as [[y|]|] eqn:Eb; intro H; try discriminate;
-    try (eapply dec_to_d128_decimal; exact H).
+    try (eapply dec_result_decimal; exact H).
   all: destruct a; try discriminate; destruct b; discriminate.
 Qed.
 
-(* the result type of Add is the larger operand type *)
+(* the result type of Add / Mul: the wider operand type — except that an
+   int32 op int32 result that does not fit is promoted to int64 — or the
+   operation is rejected (Missing: int64 overflow, Decimal128 not representable) *)
+Definition result_rank_ok (a b r : value) : Prop :=
+  r = VMissing \/
+  num_rank r = Z.max (num_rank a) (num_rank b) \/
+  (num_rank a = 0 /\ num_rank b = 0 /\ num_rank r = 1).
+
 Theorem add_type a b r :
-  is_num a = true -> is_num b = true -> Add a b = Ok r ->
-  num_rank r = Z.max (num_rank a) (num_rank b).
+  is_num a = true -> is_num b = true -> Add a b = Ok r -> result_rank_ok a b r.
 Proof.
-  intros Ha Hb H. destruct a; try discriminate; destruct b; try discriminate; cbn [Add] in H;
-    try (injection H as <-; reflexivity);
-    (erewrite dec_binop_decimal; [reflexivity| | |exact H]; reflexivity).
+  intros Ha Hb H. unfold result_rank_ok.
+  destruct a; try discriminate; destruct b; try discriminate; cbn [Add] in H;
+    try (injection H as <-; cbn; unfold narrow_int32, checked_int64;
+         repeat match goal with |- context [if ?c then _ else _] => destruct c end; cbn; auto; fail);
+    (destruct (dec_binop_decimal _ _ _ _ Ha Hb H) as [E|E]; [left; exact E | right; left; rewrite E; reflexivity]).
 Qed.
 
 Theorem mul_type a b r :
-  is_num a = true -> is_num b = true -> Mul a b = Ok r ->
-  num_rank r = Z.max (num_rank a) (num_rank b).
+  is_num a = true -> is_num b = true -> Mul a b = Ok r -> result_rank_ok a b r.
 Proof.
-  intros Ha Hb H. destruct a; try discriminate; destruct b; try discriminate; cbn [Mul] in H;
-    try (injection H as <-; reflexivity);
-    (erewrite dec_binop_decimal; [reflexivity| | |exact H]; reflexivity).
+  intros Ha Hb H. unfold result_rank_ok.
+  destruct a; try discriminate; destruct b; try discriminate; cbn [Mul] in H;
+    try (injection H as <-; cbn; unfold narrow_int32, checked_int64;
+         repeat match goal with |- context [if ?c then _ else _] => destruct c end; cbn; auto; fail);
+    (destruct (dec_binop_decimal _ _ _ _ Ha Hb H) as [E|E]; [left; exact E | right; left; rewrite E; reflexivity]).
 Qed.
 
 (* non-numbers give Missing, whatever the other operand *)
@@ -58,10 +67,16 @@ Proof.
 Qed.
 
 (* ------------------------------------------------------------------ *)
-(* exact integer arithmetic when the result is representable *)
+(* integers: exact, promoted, or rejected *)
 
 Definition in32 (z : Z) : Prop := - two31 <= z < two31.
 Definition in64 (z : Z) : Prop := - two63 <= z < two63.
+
+Lemma in_int32_spec z : in_int32 z = true <-> in32 z.
+Proof. unfold in_int32, in32. rewrite andb_true_iff, Z.leb_le, Z.ltb_lt. tauto. Qed.
+
+Lemma in_int64_spec z : in_int64 z = true <-> in64 z.
+Proof. unfold in_int64, in64. rewrite andb_true_iff, Z.leb_le, Z.ltb_lt. tauto. Qed.
 
 Lemma wrap32_id z : in32 z -> wrap32 z = z.
 Proof.
@@ -73,144 +88,96 @@ Proof.
   unfold in64, wrap64, two63, two64. intro H. rewrite Z.mod_small by lia. lia.
 Qed.
 
-Lemma wrap32_range z : in32 (wrap32 z).
-Proof.
-  unfold in32, wrap32, two31, two32. pose proof (Z.mod_pos_bound (z + 2147483648) 4294967296). lia.
-Qed.
-
-Lemma wrap64_range z : in64 (wrap64 z).
-Proof.
-  unfold in64, wrap64, two63, two64. pose proof (Z.mod_pos_bound (z + 9223372036854775808) 18446744073709551616). lia.
-Qed.
-
-(* the integer value and width of an integer BSON number *)
+(* the integer value of an integer BSON number *)
 Definition int_of (v : value) : option Z :=
   match v with VInt32 z | VInt64 z => Some z | _ => None end.
 
-Definition fits (rank : Z) (z : Z) : Prop := if rank =? 0 then in32 z else in64 z.
+(* the complete description of integer Add / Mul: with z the mathematical
+   result, int32 op int32 gives int32 z if it fits and int64 z otherwise;
+   every other integer pair gives int64 z if it fits and is rejected otherwise *)
+Definition int_result (a b : value) (z : Z) : value :=
+  if (num_rank a =? 0) && (num_rank b =? 0)
+  then (if in_int32 z then VInt32 z else VInt64 z)
+  else (if in_int64 z then VInt64 z else VMissing).
 
-(* when the mathematical sum fits the result type, the result is exact *)
-Theorem add_exact_int a b x y :
-  int_of a = Some x -> int_of b = Some y ->
-  fits (Z.max (num_rank a) (num_rank b)) (x + y) ->
-  exists r, Add a b = Ok r /\ int_of r = Some (x + y) /\ num_rank r = Z.max (num_rank a) (num_rank b).
-Proof.
-  intros Ha Hb F. destruct a; try discriminate; destruct b; try discriminate;
-    cbn in Ha, Hb; injection Ha as ->; injection Hb as ->; cbn [Add]; eexists; split; try reflexivity; cbn in F |- *.
-  - rewrite wrap32_id by exact F. auto.
-  - rewrite wrap64_id by exact F. auto.
-  - rewrite wrap64_id by exact F. auto.
-  - rewrite wrap64_id by exact F. auto.
-Qed.
-
-Theorem mul_exact_int a b x y :
-  int_of a = Some x -> int_of b = Some y ->
-  fits (Z.max (num_rank a) (num_rank b)) (x * y) ->
-  exists r, Mul a b = Ok r /\ int_of r = Some (x * y) /\ num_rank r = Z.max (num_rank a) (num_rank b).
-Proof.
-  intros Ha Hb F. destruct a; try discriminate; destruct b; try discriminate;
-    cbn in Ha, Hb; injection Ha as ->; injection Hb as ->; cbn [Mul]; eexists; split; try reflexivity; cbn in F |- *.
-  - rewrite wrap32_id by exact F. auto.
-  - rewrite wrap64_id by exact F. auto.
-  - rewrite wrap64_id by exact F. auto.
-  - rewrite wrap64_id by exact F. auto.
-Qed.
-
-(* integer results always stay inside their type (the wrap-around) *)
-Theorem add_int_wraps a b x y :
-  int_of a = Some x -> int_of b = Some y ->
-  exists r z, Add a b = Ok r /\ int_of r = Some z /\ fits (num_rank r) z /\
-              (z - (x + y)) mod (if num_rank r =? 0 then two32 else two64) = 0.
+Theorem add_int_full a b x y :
+  int_of a = Some x -> int_of b = Some y -> Add a b = Ok (int_result a b (x + y)).
 Proof.
   intros Ha Hb. destruct a; try discriminate; destruct b; try discriminate;
-    cbn in Ha, Hb; injection Ha as ->; injection Hb as ->; cbn [Add]; do 2 eexists; (split; [reflexivity|]); cbn [int_of num_rank Z.eqb fits];
-    (split; [reflexivity|]); split.
-  all: try apply wrap32_range; try apply wrap64_range.
-  - unfold wrap32, two31, two32. rewrite (Z.mod_eq (x + y + 2147483648) 4294967296) by lia.
-    replace (x + y + 2147483648 - 4294967296 * ((x + y + 2147483648) / 4294967296) - 2147483648 - (x + y))
-      with ((- ((x + y + 2147483648) / 4294967296)) * 4294967296) by lia. apply Z.mod_mul. lia.
-  - unfold wrap64, two63, two64. rewrite (Z.mod_eq (x + y + 9223372036854775808) 18446744073709551616) by lia.
-    replace (x + y + 9223372036854775808 - 18446744073709551616 * ((x + y + 9223372036854775808) / 18446744073709551616) - 9223372036854775808 - (x + y))
-      with ((- ((x + y + 9223372036854775808) / 18446744073709551616)) * 18446744073709551616) by lia. apply Z.mod_mul. lia.
-  - unfold wrap64, two63, two64. rewrite (Z.mod_eq (x + y + 9223372036854775808) 18446744073709551616) by lia.
-    replace (x + y + 9223372036854775808 - 18446744073709551616 * ((x + y + 9223372036854775808) / 18446744073709551616) - 9223372036854775808 - (x + y))
-      with ((- ((x + y + 9223372036854775808) / 18446744073709551616)) * 18446744073709551616) by lia. apply Z.mod_mul. lia.
-  - unfold wrap64, two63, two64. rewrite (Z.mod_eq (x + y + 9223372036854775808) 18446744073709551616) by lia.
-    replace (x + y + 9223372036854775808 - 18446744073709551616 * ((x + y + 9223372036854775808) / 18446744073709551616) - 9223372036854775808 - (x + y))
-      with ((- ((x + y + 9223372036854775808) / 18446744073709551616)) * 18446744073709551616) by lia. apply Z.mod_mul. lia.
+    cbn in Ha, Hb; injection Ha as ->; injection Hb as ->; reflexivity.
 Qed.
 
-(* ------------------------------------------------------------------ *)
-(* MongoDB's promotion rule: "an integer result that does not fit its type is
-   promoted to the next wider type (int32 -> int64), and an int64 overflow is
-   an error".  In the value domain: the result, when there is one, denotes the
-   mathematical sum. *)
-
-Definition add_promotes : Prop :=
-  forall a b x y r, int_of a = Some x -> int_of b = Some y -> wf a = true -> wf b = true ->
-    Add a b = Ok r -> int_of r = Some (x + y).
-
-(* the faithful model refutes it: int32 2147483647 + 1 = int32 -2147483648 *)
-Theorem int_overflow_refuted :
-  Add (VInt32 2147483647) (VInt32 1) = Ok (VInt32 (-2147483648)) /\
-  Add (VInt64 9223372036854775807) (VInt64 1) = Ok (VInt64 (-9223372036854775808)) /\
-  Mul (VInt32 65536) (VInt32 65536) = Ok (VInt32 0) /\
-  ~ add_promotes.
+Theorem mul_int_full a b x y :
+  int_of a = Some x -> int_of b = Some y -> Mul a b = Ok (int_result a b (x * y)).
 Proof.
-  split; [vm_compute; reflexivity|]. split; [vm_compute; reflexivity|]. split; [vm_compute; reflexivity|].
-  intro H. specialize (H (VInt32 2147483647) (VInt32 1) 2147483647 1 _ eq_refl eq_refl eq_refl eq_refl eq_refl).
-  vm_compute in H. discriminate.
+  intros Ha Hb. destruct a; try discriminate; destruct b; try discriminate;
+    cbn in Ha, Hb; injection Ha as ->; injection Hb as ->; reflexivity.
 Qed.
 
-(* what does hold: without overflow the result is the mathematical sum *)
-Theorem add_promotes_partial a b x y r :
-  int_of a = Some x -> int_of b = Some y ->
-  fits (Z.max (num_rank a) (num_rank b)) (x + y) ->
-  Add a b = Ok r -> int_of r = Some (x + y).
+(* MongoDB's promotion rule, now the full statement: the result, when there is
+   one, is the mathematical sum; there is none exactly when an int64 result
+   would overflow; int32 operands (well-formed) are never rejected *)
+Theorem add_promotes a b x y r :
+  int_of a = Some x -> int_of b = Some y -> Add a b = Ok r ->
+  (int_of r = Some (x + y) /\
+   num_rank r = (if (num_rank a =? 0) && (num_rank b =? 0) && in_int32 (x + y) then 0 else 1)) \/
+  (r = VMissing /\ ~ in64 (x + y) /\ Z.max (num_rank a) (num_rank b) = 1).
 Proof.
-  intros Ha Hb F H. destruct (add_exact_int _ _ _ _ Ha Hb F) as (r' & E & I & _). congruence.
+  intros Ha Hb H. rewrite (add_int_full _ _ _ _ Ha Hb) in H. injection H as <-. unfold int_result.
+  destruct a; try discriminate; destruct b; try discriminate; cbn [num_rank Z.eqb andb].
+  - destruct (in_int32 (x + y)); left; auto.
+  - destruct (in_int64 (x + y)) eqn:E; [left; auto | right]. split; [reflexivity|]. split; [|reflexivity].
+    rewrite <- in_int64_spec. congruence.
+  - destruct (in_int64 (x + y)) eqn:E; [left; auto | right]. split; [reflexivity|]. split; [|reflexivity].
+    rewrite <- in_int64_spec. congruence.
+  - destruct (in_int64 (x + y)) eqn:E; [left; auto | right]. split; [reflexivity|]. split; [|reflexivity].
+    rewrite <- in_int64_spec. congruence.
 Qed.
 
-(* Decimal128: "the result is the exact product / sum, or an error".  The model
-   refutes it: a product with more than 34 significant digits is silently
-   replaced by the zero value Decimal128{} (bits 0,0 = 0E-6176). *)
+Theorem mul_promotes a b x y r :
+  int_of a = Some x -> int_of b = Some y -> Mul a b = Ok r ->
+  (int_of r = Some (x * y) /\
+   num_rank r = (if (num_rank a =? 0) && (num_rank b =? 0) && in_int32 (x * y) then 0 else 1)) \/
+  (r = VMissing /\ ~ in64 (x * y) /\ Z.max (num_rank a) (num_rank b) = 1).
+Proof.
+  intros Ha Hb H. rewrite (mul_int_full _ _ _ _ Ha Hb) in H. injection H as <-. unfold int_result.
+  destruct a; try discriminate; destruct b; try discriminate; cbn [num_rank Z.eqb andb].
+  - destruct (in_int32 (x * y)); left; auto.
+  - destruct (in_int64 (x * y)) eqn:E; [left; auto | right]. split; [reflexivity|]. split; [|reflexivity].
+    rewrite <- in_int64_spec. congruence.
+  - destruct (in_int64 (x * y)) eqn:E; [left; auto | right]. split; [reflexivity|]. split; [|reflexivity].
+    rewrite <- in_int64_spec. congruence.
+  - destruct (in_int64 (x * y)) eqn:E; [left; auto | right]. split; [reflexivity|]. split; [|reflexivity].
+    rewrite <- in_int64_spec. congruence.
+Qed.
 
+(* two int32 values are never rejected: sum and product fit int64 *)
+Theorem int32_never_rejected x y :
+  in32 x -> in32 y ->
+  (exists r, Add (VInt32 x) (VInt32 y) = Ok r /\ int_of r = Some (x + y)) /\
+  (exists r, Mul (VInt32 x) (VInt32 y) = Ok r /\ int_of r = Some (x * y)).
+Proof.
+  intros _ _. split; eexists; (split; [reflexivity|]); cbn [Add Mul]; unfold narrow_int32;
+    match goal with |- context [if ?c then _ else _] => destruct c end; reflexivity.
+Qed.
+
+(* the former counter-examples, now: promotion and rejection *)
+Theorem int_overflow_promotes_or_rejects :
+  Add (VInt32 2147483647) (VInt32 1) = Ok (VInt64 2147483648) /\
+  Mul (VInt32 65536) (VInt32 65536) = Ok (VInt64 4294967296) /\
+  Add (VInt64 9223372036854775807) (VInt64 1) = Ok VMissing /\
+  Mul (VInt64 (-9223372036854775808)) (VInt32 (-1)) = Ok VMissing.
+Proof. vm_compute. repeat split; reflexivity. Qed.
+
+(* Decimal128 values *)
 Definition dec_value (v : value) : option Q :=
   match v with
   | VDecimal h l => match dec_decode h l with DFin c e => Some (q_of_dec c e) | _ => None end
   | _ => None
   end.
 
-Definition mul_decimal_exact : Prop :=
-  forall a b x y r, dec_value a = Some x -> dec_value b = Some y -> Mul a b = Ok r ->
-    exists z, dec_value r = Some z /\ Qeq z (x * y).
-
-(* 1234567890123456789012345678901234 * 3 = 3703703670370370367037037036703702 fits;
-   1234567890123456789012345678901234 * 12345678901234567 has 50 digits *)
 Definition dec_a : value := VDecimal 3476845838389450546 16033479673939144690. (* 1234567890123456789012345678901234 *)
 Definition dec_b : value := VDecimal 3476778912330022912 12345678901234567.    (* 12345678901234567 *)
-
-Lemma q_of_dec_zero e : exists p, q_of_dec 0 e = 0 # p.
-Proof. unfold q_of_dec. destruct (0 <=? e); [exists 1%positive; reflexivity | eexists; reflexivity]. Qed.
-
-Theorem decimal_overflow_refuted :
-  dec_value dec_a = Some (1234567890123456789012345678901234 # 1) /\
-  dec_value dec_b = Some (12345678901234567 # 1) /\
-  Mul dec_a dec_b = Ok (VDecimal 0 0) /\
-  dec_decode 0 0 = DFin 0 (-6176) /\
-  ~ mul_decimal_exact.
-Proof.
-  assert (Ea : dec_value dec_a = Some (1234567890123456789012345678901234 # 1)) by (vm_compute; reflexivity).
-  assert (Eb : dec_value dec_b = Some (12345678901234567 # 1)) by (vm_compute; reflexivity).
-  assert (Em : Mul dec_a dec_b = Ok (VDecimal 0 0)) by (vm_compute; reflexivity).
-  assert (D0 : dec_decode 0 0 = DFin 0 (-6176)) by (vm_compute; reflexivity).
-  split; [exact Ea|]. split; [exact Eb|]. split; [exact Em|]. split; [exact D0|].
-  intro H. destruct (H _ _ _ _ _ Ea Eb Em) as (z & Hz & Hq).
-  unfold dec_value in Hz. rewrite D0 in Hz. destruct (q_of_dec_zero (-6176)) as [p Ep]. rewrite Ep in Hz.
-  injection Hz as <-. unfold Qeq, Qmult in Hq. cbn [Qnum Qden] in Hq.
-  rewrite Z.mul_0_l in Hq. symmetry in Hq. apply Z.mul_eq_0 in Hq. destruct Hq as [Hq|Hq]; [|discriminate].
-  apply Z.mul_eq_0 in Hq. destruct Hq; discriminate.
-Qed.
 
 (* ------------------------------------------------------------------ *)
 (* Decimal128: when the exact result has at most 34 digits and an exponent in
@@ -268,11 +235,134 @@ Proof.
   replace (H0 * 18446744073709551616 + L) with m by lia. reflexivity.
 Qed.
 
-Theorem dec_to_d128_exact c e :
-  Z.abs c <= d128_maxS -> d128_min_exp <= e <= d128_max_exp ->
-  exists h l, dec_to_d128 (c, e) = Ok (VDecimal h l) /\ dec_decode h l = DFin c e.
+(* ---- the three loops of ParseDecimal128FromBigInt keep the value ---- *)
+
+Lemma quot_rem_10 bi : Z.rem bi 10 = 0 -> bi = Z.quot bi 10 * 10.
+Proof. intro H. pose proof (Z.quot_rem' bi 10) as E. rewrite H in E. lia. Qed.
+
+Lemma abs_quot_le bi : Z.abs (Z.quot bi 10) <= Z.abs bi.
 Proof.
-  intros Hc He. unfold dec_to_d128, d128_of_bigint. cbn [fst snd].
+  pose proof (Z.quot_rem' bi 10) as E.
+  destruct (Z_le_gt_dec 0 bi) as [P|N].
+  - pose proof (Z.rem_bound_pos bi 10 P ltac:(lia)). lia.
+  - pose proof (Z.rem_bound_pos_neg bi 10 ltac:(lia) ltac:(lia)). lia.
+Qed.
+
+Lemma shrink_spec f : forall bi e b' e',
+  d128_shrink f bi e = Ok (b', e') ->
+  exists k, 0 <= k /\ bi = b' * 10 ^ k /\ e' = e + k /\ Z.abs b' <= d128_maxS /\ (k = 0 \/ e' <= d128_max_exp).
+Proof.
+  induction f as [|f IH]; intros bi e b' e' H; cbn [d128_shrink] in H.
+  - destruct (Z.leb_spec (Z.abs bi) d128_maxS); [|discriminate]. injection H as <- <-.
+    exists 0. rewrite Z.mul_1_r. repeat split; auto; lia.
+  - destruct (Z.leb_spec (Z.abs bi) d128_maxS).
+    + injection H as <- <-. exists 0. rewrite Z.mul_1_r. repeat split; auto; lia.
+    + destruct (Z.eqb_spec (Z.rem bi 10) 0) as [R|]; [|discriminate].
+      destruct (Z.ltb_spec d128_max_exp (e + 1)); [discriminate|].
+      destruct (IH _ _ _ _ H) as (k & Hk & E & Ee & Hb & Hm).
+      exists (k + 1). split; [lia|]. split.
+      * rewrite Z.pow_add_r by lia. rewrite (quot_rem_10 _ R), E. change (10 ^ 1) with 10. ring.
+      * split; [lia|]. split; [exact Hb|]. right. destruct Hm; lia.
+Qed.
+
+Lemma raise_spec f : forall bi e b' e',
+  d128_raise f bi e = Ok (b', e') ->
+  exists k, 0 <= k /\ bi = b' * 10 ^ k /\ e' = e + k /\ Z.abs b' <= Z.abs bi /\
+            ((k = 0 /\ d128_min_exp <= e) \/ e' = d128_min_exp).
+Proof.
+  induction f as [|f IH]; intros bi e b' e' H; cbn [d128_raise] in H.
+  - destruct (Z.leb_spec d128_min_exp e); [|discriminate]. injection H as <- <-.
+    exists 0. rewrite Z.mul_1_r. repeat split; auto; lia.
+  - destruct (Z.leb_spec d128_min_exp e).
+    + injection H as <- <-. exists 0. rewrite Z.mul_1_r. repeat split; auto; lia.
+    + destruct (Z.eqb_spec (Z.rem bi 10) 0) as [R|]; [|discriminate].
+      destruct (IH _ _ _ _ H) as (k & Hk & E & Ee & Hb & Hm).
+      exists (k + 1). split; [lia|]. split.
+      * rewrite Z.pow_add_r by lia. rewrite (quot_rem_10 _ R), E. change (10 ^ 1) with 10. ring.
+      * split; [lia|]. split; [pose proof (abs_quot_le bi); lia|]. right. destruct Hm as [[-> Hm]|Hm]; lia.
+Qed.
+
+Lemma clamp_spec f : forall bi e b' e',
+  d128_clamp f bi e = Ok (b', e') ->
+  exists k, 0 <= k /\ b' = bi * 10 ^ k /\ e' = e - k /\ e' <= d128_max_exp /\
+            (k = 0 \/ (Z.abs b' <= d128_maxS /\ e' = d128_max_exp)).
+Proof.
+  induction f as [|f IH]; intros bi e b' e' H; cbn [d128_clamp] in H.
+  - destruct (Z.leb_spec e d128_max_exp); [|discriminate]. injection H as <- <-.
+    exists 0. rewrite Z.mul_1_r. repeat split; auto; lia.
+  - destruct (Z.leb_spec e d128_max_exp).
+    + injection H as <- <-. exists 0. rewrite Z.mul_1_r. repeat split; auto; lia.
+    + destruct (Z.ltb_spec d128_maxS (Z.abs (bi * 10))); [discriminate|].
+      destruct (IH _ _ _ _ H) as (k & Hk & E & Ee & Hle & Hm).
+      exists (k + 1). split; [lia|]. split.
+      * rewrite Z.pow_add_r by lia. rewrite E. change (10 ^ 1) with 10. ring.
+      * split; [lia|]. split; [exact Hle|]. right. destruct Hm as [->|[Hb He]].
+        -- rewrite Z.pow_0_r, Z.mul_1_r in E. subst b'. split; [assumption | lia].
+        -- auto.
+Qed.
+
+(* the same decimal number: coefficient * 10^exponent agree (written without
+   fractions: one coefficient is the other times a power of ten) *)
+Definition same_decimal (c e c' e' : Z) : Prop :=
+  (c = 0 /\ c' = 0) \/
+  exists k, 0 <= k /\ ((c = c' * 10 ^ k /\ e' = e + k) \/ (c' = c * 10 ^ k /\ e = e' + k)).
+
+(* ParseDecimal128FromBigInt: when it succeeds the stored (coefficient,
+   exponent) is within the Decimal128 limits and denotes exactly c * 10^e *)
+Theorem d128_of_bigint_exact c e h l :
+  d128_of_bigint c e = Ok (h, l) ->
+  exists c' e', dec_decode h l = DFin c' e' /\ same_decimal c e c' e' /\
+                Z.abs c' <= d128_maxS /\ d128_min_exp <= e' <= d128_max_exp.
+Proof.
+  unfold d128_of_bigint. intro H.
+  set (e0 := if c =? 0 then Z.max d128_min_exp (Z.min d128_max_exp e) else e) in H.
+  destruct (d128_shrink (digits_fuel c) c e0) as [[b1 e1]| | | |] eqn:S1; cbn [bind] in H; try discriminate.
+  destruct (d128_raise (digits_fuel b1) b1 e1) as [[b2 e2]| | | |] eqn:S2; cbn [bind] in H; try discriminate.
+  destruct (d128_clamp 40 b2 e2) as [[b3 e3]| | | |] eqn:S3; cbn [bind] in H; try discriminate.
+  injection H as <- <-.
+  destruct (shrink_spec _ _ _ _ _ S1) as (k1 & K1 & E1 & Ee1 & B1 & M1).
+  destruct (raise_spec _ _ _ _ _ S2) as (k2 & K2 & E2 & Ee2 & B2 & M2).
+  destruct (clamp_spec _ _ _ _ _ S3) as (k3 & K3 & E3 & Ee3 & L3 & M3).
+  assert (Hb3 : Z.abs b3 <= d128_maxS).
+  { destruct M3 as [->|[Hb _]]; [|exact Hb]. rewrite Z.pow_0_r, Z.mul_1_r in E3. subst b3. lia. }
+  assert (He3 : d128_min_exp <= e3 <= d128_max_exp).
+  { split; [|exact L3]. destruct M3 as [->|[_ ->]]; [|unfold d128_min_exp, d128_max_exp; lia].
+    destruct M2 as [[_ Hm]|Hm]; lia. }
+  exists b3, e3. split; [|split; [|split; assumption]].
+  - replace (e3 - d128_min_exp) with (e3 + 6176) by (unfold d128_min_exp; lia).
+    change (Z.pow_pos 2 49) with (2 ^ 49).
+    pose proof (d128_encode_decode (Z.abs b3) (e3 + 6176) (b3 <? 0)) as R.
+    replace (e3 + 6176 - 6176) with e3 in R by lia.
+    rewrite R; [|lia | unfold d128_min_exp, d128_max_exp in *; lia].
+    f_equal. destruct (Z.ltb_spec b3 0); lia.
+  - destruct (Z.eqb_spec c 0) as [->|Hc].
+    + left. split; [reflexivity|].
+      assert (Z1 : b1 = 0).
+      { symmetry in E1. apply Z.mul_eq_0 in E1. destruct E1 as [|P]; [assumption|]. pose proof (Z.pow_pos_nonneg 10 k1). lia. }
+      rewrite Z1 in E2.
+      assert (Z2 : b2 = 0).
+      { symmetry in E2. apply Z.mul_eq_0 in E2. destruct E2 as [|P]; [assumption|]. pose proof (Z.pow_pos_nonneg 10 k2). lia. }
+      rewrite E3, Z2. ring.
+    + right. subst e0.
+      (* k3 > 0 only if the first two loops did nothing *)
+      destruct (Z.eq_dec k3 0) as [->|N3].
+      * exists (k1 + k2). split; [lia|]. left. rewrite Z.pow_0_r, Z.mul_1_r in E3. subst b3.
+        split; [rewrite E1, E2, Z.pow_add_r by lia; ring | lia].
+      * destruct M3 as [->|[_ He]]; [congruence|].
+        assert (k2 = 0) by (destruct M2 as [[-> _]|M2]; [reflexivity|]; unfold d128_min_exp, d128_max_exp in *; lia).
+        subst k2.
+        assert (k1 = 0) by (destruct M1 as [|M1]; [assumption|]; unfold d128_min_exp, d128_max_exp in *; lia).
+        subst k1. rewrite Z.pow_0_r, Z.mul_1_r in E1, E2. subst b1 b2.
+        exists k3. split; [lia|]. right. split; [exact E3 | lia].
+Qed.
+
+(* a result that fits as it is (at most 34 digits, exponent in range) is stored
+   exactly as (c, e) and never rejected *)
+Theorem dec_result_fits c e :
+  Z.abs c <= d128_maxS -> d128_min_exp <= e <= d128_max_exp ->
+  exists h l, dec_result (c, e) = Ok (VDecimal h l) /\ dec_decode h l = DFin c e.
+Proof.
+  intros Hc He. unfold dec_result, d128_of_bigint. cbn [fst snd].
   assert (E0 : (if c =? 0 then Z.max d128_min_exp (Z.min d128_max_exp e) else e) = e).
   { destruct (c =? 0); [|reflexivity]. unfold d128_min_exp, d128_max_exp in *. lia. }
   rewrite E0.
@@ -291,19 +381,53 @@ Proof.
   f_equal. destruct (Z.ltb_spec c 0); lia.
 Qed.
 
-(* the product of two finite decimals that fits 34 digits is stored exactly *)
-Theorem mul_decimal_exact_partial h1 l1 h2 l2 c1 e1 c2 e2 :
+(* dec_result: exact or rejected (never a wrong value) *)
+Theorem dec_result_exact_or_rejected c e r :
+  dec_result (c, e) = Ok r ->
+  r = VMissing \/
+  exists h l c' e', r = VDecimal h l /\ dec_decode h l = DFin c' e' /\ same_decimal c e c' e'.
+Proof.
+  unfold dec_result. cbn [fst snd]. destruct (d128_of_bigint c e) as [[h l]| | | |] eqn:E; intro H; try discriminate.
+  - injection H as <-. right. destruct (d128_of_bigint_exact _ _ _ _ E) as (c' & e' & D & S & _).
+    exists h, l, c', e'. auto.
+  - injection H as <-. left. reflexivity.
+Qed.
+
+(* Mul / Add of two finite decimals: the exact product / sum, or rejected *)
+Theorem mul_decimal_exact_or_rejected h1 l1 h2 l2 c1 e1 c2 e2 r :
+  dec_decode h1 l1 = DFin c1 e1 -> dec_decode h2 l2 = DFin c2 e2 ->
+  Mul (VDecimal h1 l1) (VDecimal h2 l2) = Ok r ->
+  r = VMissing \/
+  exists h l c' e', r = VDecimal h l /\ dec_decode h l = DFin c' e' /\ same_decimal (c1 * c2) (e1 + e2) c' e'.
+Proof.
+  intros D1 D2 H. cbn [Mul] in H. unfold dec_binop, dec_operand, dec_of_d128 in H. rewrite D1, D2 in H.
+  cbn [dec_mul] in H. apply dec_result_exact_or_rejected. exact H.
+Qed.
+
+Theorem add_decimal_exact_or_rejected h1 l1 h2 l2 c1 e1 c2 e2 r :
+  dec_decode h1 l1 = DFin c1 e1 -> dec_decode h2 l2 = DFin c2 e2 ->
+  Add (VDecimal h1 l1) (VDecimal h2 l2) = Ok r ->
+  let e := Z.min e1 e2 in
+  let c := c1 * zpow 10 (e1 - e) + c2 * zpow 10 (e2 - e) in
+  r = VMissing \/
+  exists h l c' e', r = VDecimal h l /\ dec_decode h l = DFin c' e' /\ same_decimal c e c' e'.
+Proof.
+  intros D1 D2 H e c. cbn [Add] in H. unfold dec_binop, dec_operand, dec_of_d128 in H. rewrite D1, D2 in H.
+  cbn [dec_add] in H. apply dec_result_exact_or_rejected. exact H.
+Qed.
+
+(* ... and it is not rejected when the exact result fits as it is *)
+Theorem mul_decimal_fits h1 l1 h2 l2 c1 e1 c2 e2 :
   dec_decode h1 l1 = DFin c1 e1 -> dec_decode h2 l2 = DFin c2 e2 ->
   Z.abs (c1 * c2) <= d128_maxS -> d128_min_exp <= e1 + e2 <= d128_max_exp ->
   exists h l, Mul (VDecimal h1 l1) (VDecimal h2 l2) = Ok (VDecimal h l) /\
               dec_decode h l = DFin (c1 * c2) (e1 + e2).
 Proof.
   intros D1 D2 Hc He. cbn [Mul]. unfold dec_binop, dec_operand, dec_of_d128. rewrite D1, D2.
-  cbn [dec_mul]. apply dec_to_d128_exact; assumption.
+  cbn [dec_mul]. apply dec_result_fits; assumption.
 Qed.
 
-(* the sum of two finite decimals that fits 34 digits is stored exactly *)
-Theorem add_decimal_exact_partial h1 l1 h2 l2 c1 e1 c2 e2 :
+Theorem add_decimal_fits h1 l1 h2 l2 c1 e1 c2 e2 :
   dec_decode h1 l1 = DFin c1 e1 -> dec_decode h2 l2 = DFin c2 e2 ->
   let e := Z.min e1 e2 in
   let c := c1 * zpow 10 (e1 - e) + c2 * zpow 10 (e2 - e) in
@@ -311,5 +435,9 @@ Theorem add_decimal_exact_partial h1 l1 h2 l2 c1 e1 c2 e2 :
   exists h l, Add (VDecimal h1 l1) (VDecimal h2 l2) = Ok (VDecimal h l) /\ dec_decode h l = DFin c e.
 Proof.
   intros D1 D2 e c Hc He. cbn [Add]. unfold dec_binop, dec_operand, dec_of_d128. rewrite D1, D2.
-  cbn [dec_add]. apply dec_to_d128_exact; assumption.
+  cbn [dec_add]. apply dec_result_fits; assumption.
 Qed.
+
+(* the former counter-example: the 50-digit product is rejected now *)
+Theorem decimal_overflow_rejected : Mul dec_a dec_b = Ok VMissing.
+Proof. vm_compute. reflexivity. Qed.
